@@ -920,12 +920,16 @@ class Qcow2Chain(ChainSuite):
         for _ in range(n):
             depth = rng.randint(2, 4)
             extcase = rng.chance(0.5)         # some layers use extended L2 entries (32 sub-clusters with alloc/zero bits)
+            # some chains span several L2 ranges (512-byte clusters, 64 entries per table), with L1 holes in the upper layers
+            multi = (not extcase) and rng.chance(0.35)
             ncl_bytes = rng.randint(2, 20) * 512 if not extcase else rng.randint(20, 96) * 512
+            if multi:
+                ncl_bytes = rng.randint(70, 150) * 512
             size = ncl_bytes - rng.pick([0, 0, 77])
             layers = []
             for d in range(depth):
                 ext = extcase and (d == 0 or rng.chance(0.4))      # the top layer of an ext case is always extended
-                cb = 14 if ext else (rng.pick([11, 12]) if extcase else rng.pick([9, 9, 10]))
+                cb = 14 if ext else (rng.pick([11, 12]) if extcase else (9 if multi else rng.pick([9, 9, 10])))
                 cs = 1 << cb
                 ncl = (size + cs - 1) // cs
                 hosts = list(range(ncl))
@@ -954,8 +958,18 @@ class Qcow2Chain(ChainSuite):
                         cl[str(g)] = rng.weighted([({"t": "normal", "host": (8 + hosts[g]) * cs, "copied": True}, 5),
                                                     ({"t": "zero_plain"}, 1)])
                 top = d < depth - 1
+                l1_size, l2tabs = 1, {"0": 2 * cs}
+                if multi:
+                    l2n = cs // 8
+                    l1_size = (ncl + l2n - 1) // l2n
+                    have = [k for k in range(l1_size) if not (top and rng.chance(0.4))]
+                    if top and l1_size >= 2 and rng.chance(0.6):
+                        have = [k for k in have if k != 0] or [1]          # a hole in front of a range with a table
+                        cl[str(l2n)] = {"t": "normal", "host": (8 + hosts[l2n]) * cs, "copied": True}
+                    l2tabs = {str(k): (4 + k) * cs for k in have}
+                    cl = {g: v for g, v in cl.items() if int(g) // l2n in have}
                 layers.append({"cluster_bits": cb, "ext": ext, "datafile": False, "version": 3, "header_length": 112 if ext else 104,
-                               "l1_size": 1, "l1_offset": cs, "rc_offset": 3 * cs, "l2tabs": {"0": 2 * cs}, "clusters": cl,
+                               "l1_size": l1_size, "l1_offset": cs, "rc_offset": 3 * cs, "l2tabs": l2tabs, "clusters": cl,
                                "backing": ({"size": size} if top else None), "backing_name_off": 200, "size": size,
                                "salt": rng.randrange(1 << 30), "file_size": (8 + ncl + 1) * cs, "data_size": 0})
             reqs = []
@@ -963,6 +977,11 @@ class Qcow2Chain(ChainSuite):
                 a = rng.randrange(0, size)
                 reqs.append([rng.pick(["raw", "bytes"]), a, rng.randint(1, min(size - a, 20000 if extcase else 3000))])
             reqs.append([rng.pick(["raw", "bytes"]), 0, size])          # the whole disk in one request
+            if multi:
+                for k in range(1, (size + 64 * 512 - 1) // (64 * 512)):
+                    b = k * 64 * 512
+                    a = max(0, b - rng.randint(1, 1500))
+                    reqs.append(["raw", a, min(size - a, b - a + rng.randint(1, 3000))])   # across an L2 range boundary
             out.append({"layers": layers, "size": size, "reqs": reqs})
         return out
 
